@@ -182,8 +182,10 @@ def observe_draw(c, params, dt, loss, vals, k, style=0):
 
     before = deep_snapshot(c, params)
     rec = {"ret": None, "pure": None}
+    labels = _labels(k, style)
+    labels0 = None if labels is None else list(labels)
     try:
-        r = lw.Display(c, display_loss=loss, mode_labels=_labels(k, style), display_type=dt, show_parameter_values=vals)
+        r = lw.Display(c, display_loss=loss, mode_labels=labels, display_type=dt, show_parameter_values=vals)
         if dt == "mpl":
             good = (isinstance(r, tuple) and len(r) == 2 and isinstance(r[0], matplotlib.figure.Figure)
                     and isinstance(r[1], matplotlib.axes.Axes))
@@ -232,6 +234,8 @@ def observe_draw(c, params, dt, loss, vals, k, style=0):
     d = core.approx_equal(before, after, tol=0.0)
     if d:
         rec["pure"] = f"circuit changed by Display: {d}"
+    elif labels != labels0:
+        rec["pure"] = f"the caller's mode_labels list was modified by Display: {labels0} -> {labels}"
     return rec
 
 
